@@ -257,8 +257,11 @@ func (s *Srv) Barrier() bool {
 
 // ServedPin does a handshake of its own and returns the pin of the key the
 // listener really presents: base64(sha256(SubjectPublicKeyInfo)).
-func (s *Srv) ServedPin() (string, error) {
-	c, err := tls.DialWithDialer(&net.Dialer{Timeout: Wait}, "tcp", s.DialAddr(), &tls.Config{InsecureSkipVerify: true})
+func (s *Srv) ServedPin() (string, error) { return s.ServedPinSNI("") }
+
+// ServedPinSNI is ServedPin with a server name in the ClientHello ("" = none).
+func (s *Srv) ServedPinSNI(sni string) (string, error) {
+	c, err := tls.DialWithDialer(&net.Dialer{Timeout: Wait}, "tcp", s.DialAddr(), &tls.Config{InsecureSkipVerify: true, ServerName: sni})
 	if err != nil {
 		return "", err
 	}
